@@ -472,7 +472,7 @@ U("src.ctx_dereg", src="units/poll_unit.c", harness="h_deregister_ctx_src", enfo
   replace=["poll_set_new_evt", "m_mem_unrefp"], logctx="CORE", props=["C20", "C04"], contract_files=POLLC, native=False, timeout=200, min_obligations=10)
 SRCC = ABS + ["contracts/src.contracts.h"]
 U("src.register", src="units/src_unit.c", harness="h_register_mod_src", enforce="register_mod_src", defines=["V_SRCREG_UNIT"], logctx="CORE",
-  replace=["m_mod_is", "m_ctx", "fetch_ms", "create_src", "m_bst_insert", "poll_set_new_evt", "start_task", "m_mem_unref"],
+  replace=["m_mod_is", "m_ctx", "fetch_ms", "create_src", "m_bst_insert", "m_bst_remove", "poll_set_new_evt", "start_task", "m_mem_unref"],
   props=["C09", "C13", "C18", "C01", "C04"], contract_files=SRCC, native=False, timeout=250, min_obligations=20)
 U("src.deregister", src="units/src_unit.c", harness="h_deregister_mod_src", enforce="deregister_mod_src", defines=["V_SRCDEREG_UNIT"], logctx="CORE",
   replace=["m_mod_is", "m_ctx", "fetch_ms", "m_bst_remove"], props=["C09", "C18", "C04"], contract_files=SRCC, native=False, timeout=250, min_obligations=20)
